@@ -16,6 +16,7 @@ class Tape:
     flags: dict[str|int, int|bool] = field(default_factory=dict)
     contracts: dict[bytes, object] = field(default_factory=dict)
     plugins: dict[str, list[Callable]] = field(default_factory=dict)
+    returned: bool = field(default=False)
 
     def read(self, size: int, move_pointer: bool = True) -> bytes:
         """Read symbols from the data."""
